@@ -100,7 +100,10 @@ CLAIMS = {
          "Theorems (Props/C17.lean): the operation cache only ever holds sound entries (preserved by * and /); a repeated operation returns "
          "the identical result; a failed operation leaves the state (cache) untouched so it is recomputed after later declarations; for any "
          "two states reached by any histories, successful results of the same operation have the same value under every valuation "
-         "admissible in both. Correspondence: same declaration set in two dependency-respecting orders in two forked processes with "
+         "admissible in both; and for EVERY history (ReachableQ: any interleaving of declarations - valid or rejected, any order - and unit "
+         "products / quotients) with no hypothesis left: the cache invariant holds in every reachable state, a successful u*v is worth "
+         "scale(u)*scale(v), and two histories give the same value for corresponding units (results_do_not_depend_on_history). "
+         "Correspondence: same declaration set in two dependency-respecting orders in two forked processes with "
          "different operation schedules, operations targeted BEFORE their result type exists, repeats, common final block; checked by "
          "value against the history-independent expectation.",
          "6 C17", NOTE),
